@@ -101,6 +101,15 @@ class FlowFields(ImageBatch):
             return FlowField(data, grid, self._axes)
         return super()._make_subitem(data, grid)
 
+    @classmethod
+    def from_images(cls: Type[TFlowFields], images: Sequence[Image]) -> TFlowFields:
+        r"""Create batch from sequence of flow fields, which must be defined with respect to the same axes."""
+        flow = super().from_images(images)
+        axes = cls._torch_function_axes((list(images),))
+        if axes is not None:
+            flow._axes = axes
+        return flow
+
     @staticmethod
     def _torch_function_axes(args) -> Optional[Axes]:
         r"""Get flow field Axes from args passed to __torch_function__."""
